@@ -3,13 +3,18 @@
    instantiated with the facts regenerated from server.py (decorator order, async-with order,
    worker decorator, abor() condition, dispatcher except ladders). *)
 From Coq Require Import ZArith List Bool String.
-From Verif Require Import Lib.Sx Lib.Facts Model.Transfer Proofs.Transfer Proofs.TransferGen Gen.Dispatch.
+From Verif Require Import Lib.Sx Lib.Facts Model.Transfer Proofs.Transfer Proofs.TransferGen Gen.Dispatch Gen.Workers.
 Import ListNotations.
 Open Scope list_scope.
 
 (* closed obligations over today's source *)
-Lemma C14_translator_ok : translator_ok = true.
-Proof. vm_compute. reflexivity. Qed.
+Lemma C14_translator_ok : Dispatch.translator_ok = true /\ Workers.translator_ok = true.
+Proof. vm_compute. split; reflexivity. Qed.
+(* the two translators agree; abor() cancels every element of extra_workers in one branch and replies 226 in the other *)
+Lemma C14_translators_agree : translators_agree = true.
+Proof. exact gen_translators_agree. Qed.
+Lemma C14_abor_shape_ok : abor_shape_ok = true.
+Proof. exact gen_abor_shape_ok. Qed.
 Lemma C14_facts_ok : sound14 genF = true.
 Proof. vm_compute. reflexivity. Qed.
 
@@ -24,7 +29,7 @@ Theorem C14_abor_in_body : forall st w,
   snd (abor_run genF st) = [426%Z; 226%Z]
   /\ fst (abor_run genF st) = {| ss := ss st; ws := [] |}
   /\ (exists w', ws (unwind genF (fst (step genF st Abor))) = [w'] /\ good_w genF w' /\ same_data w w').
-Proof. intros st w Hr. exact (abor_in_body genF st w C14_facts_ok (reachable_ok genF st Hr)). Qed.
+Proof. exact (fun st w Hr => abor_in_body genF st w C14_facts_ok (reachable_ok genF st Hr)). Qed.
 Print Assumptions C14_abor_in_body.
 
 Theorem C14_moved_is_prefix : forall cc wf d w,
@@ -36,7 +41,7 @@ Print Assumptions C14_moved_is_prefix.
 (* no worker (never started, or finished AND reaped): a single 226, nothing else changes *)
 Theorem C14_abor_idle : forall st, alive (ss st) = true -> ws st = [] ->
   step genF st Abor = (st, [226%Z]).
-Proof. intros st. apply abor_idle. vm_compute. discriminate. Qed.
+Proof. exact (fun st => abor_idle genF st (sound14_abor_known genF C14_facts_ok)). Qed.
 Print Assumptions C14_abor_idle.
 
 (* THE FULL STATEMENT (kept visible; false on today's code, see the _refuted theorems) *)
@@ -54,7 +59,7 @@ Theorem C14_abor_any_moment_partial : forall st,
   reachable genF st -> alive (ss st) = true -> (List.length (ws st) <= 1)%nat ->
   forallb (abor_safe genF) (ws st) = true ->
   abor_ok genF st.
-Proof. intros st Hr. exact (abor_any_moment_partial genF st C14_facts_ok (reachable_ok genF st Hr)). Qed.
+Proof. exact (fun st Hr => abor_any_moment_partial genF st C14_facts_ok (reachable_ok genF st Hr)). Qed.
 Print Assumptions C14_abor_any_moment_partial.
 
 (* non-vacuity: reachable states of every transfer kind in the body satisfy the hypotheses *)
